@@ -449,6 +449,8 @@ def check_assignment(raw, nvars, n_in, asg_bits, expect_sat, expected_vals, solv
 
 
 def oracle(case, check_circuit_sat=True):
+    if 'large' in case:
+        return oracle_large(case)
     dump, outs = case['circuit'], case.get('outs')
     if not evalcorr.well_formed_for_eval(dump):
         return None
@@ -556,6 +558,69 @@ def oracle_circuit_sat(dump, ins, raw_default, expect):
     return None
 
 
+# ------------------------------------------------------------------ large formulas through the query
+# The query hands the CNF to the solver: every clause has to arrive, whatever the size of the formula (a solver
+# front end that feeds clauses in batches must not lose the last, incomplete batch).  Formulas whose satisfiability
+# is known by construction and in which EVERY clause matters:
+#   chain    x1, x1 -> x2, ..., x(k-1) -> xk            satisfiable, only by all-True
+#   chain-   the same plus the unit clause -xk           unsatisfiable, and satisfiable as soon as any clause is lost
+#   and-row  y_i = AND(x_i, x_i+1) all outputs           satisfiable only by all-True inputs (circuit query)
+#   and-row- the same plus the output NOT(x_mid)         unsatisfiable (circuit query)
+LARGE_SIZES = (1000, 1025, 4097, 8200, 8300, 9000, 16400, 16500, 33000)
+
+
+def large_cases():
+    return [{'large': {'kind': k, 'n': n}} for n in LARGE_SIZES for k in ('chain', 'chain-', 'and-row', 'and-row-')]
+
+
+def _and_row(n, sat):
+    ins = [f'x{i}' for i in range(n)]
+    gs = [(i, 'INPUT', []) for i in ins]
+    outs = []
+    for i in range(n - 1):
+        gs.append((f'y{i}', 'AND', [ins[i], ins[i + 1]]))
+        outs.append(f'y{i}')
+    if not sat:
+        gs.append(('z', 'NOT', [ins[n // 2]]))
+        outs.append('z')
+    users = {}
+    for l, _, ops in gs:
+        for o in ops:
+            users.setdefault(o, []).append(l)
+    return {'inputs': ins, 'outputs': outs, 'gates': gs, 'users': list(users.items()), 'blocks': []}
+
+
+def oracle_large(case):
+    from cirbo.sat import is_circuit_satisfiable, is_satisfiable
+    from cirbo.sat.cnf import Cnf
+    kind, n = case['large']['kind'], case['large']['n']
+    expect = not kind.endswith('-')
+    try:
+        if kind.startswith('chain'):
+            raw = [[1]] + [[-i, i + 1] for i in range(1, n)] + ([] if expect else [[-n]])
+            r = is_satisfiable(Cnf(raw))
+            nin = n
+        else:
+            dump = _and_row(max(3, n // 4), expect)          # about n clauses
+            r = is_circuit_satisfiable(ct.build_circuit(dump))
+            nin = len(dump['inputs'])
+    except Exception as e:  # noqa: BLE001
+        return f'exception: the satisfiability query raised {ct.err_name(e)} on a {kind} formula of size {n}'
+    if bool(r.answer) != expect:
+        return (f'circuit-sat answer: the query says {r.answer} on a {kind} formula of about {n} clauses that is '
+                f'{"satisfiable" if expect else "unsatisfiable"} by construction')
+    if not r.answer:
+        return 'circuit-sat model: answer False with a model' if r.model is not None else None
+    if r.model is None:
+        return 'circuit-sat model: answer True without a model'
+    mv = {abs(l): l > 0 for l in r.model}
+    bad = [i for i in range(1, nin + 1) if not mv.get(i, False)]
+    if bad:
+        return (f'circuit-sat model: on a {kind} formula of about {n} clauses whose only satisfying input assignment is '
+                f'all-True, the returned model makes variable {bad[0]} False ({len(bad)} such variables)')
+    return None
+
+
 # ------------------------------------------------------------------ shrinking a failing case
 def _restrict(dump, keep_outputs):
     gates = {k: (t, ops) for k, t, ops in dump['gates']}
@@ -587,6 +652,8 @@ def _drop_input(dump, i):
 
 
 def shrink(case, msg):
+    if 'large' in case:
+        return case, msg
     key = msg.split(':')[0]
 
     def fails(c):
